@@ -455,12 +455,29 @@ def r163(ctx):
     for bi, c in pb:
         recv = render(peel(fv.expr(c.args[0])))
         arg = render(strip_ref(nv.expr(c.args[1])))
-        ctx.ob("R16.3", recv.endswith(".local") and arg == "kvvs", "cloud/commit/applies-kvvs", f"commit calls {recv}.put_batch({arg})",
-               where=f"{b.file}:{c.line}", sample="self.local.put_batch(kvvs)")
+        chain = render(strip_ref(fv.expr(c.args[1])))
+        is_chain = "collect" in chain and ("commit_log" in chain or "take(" in chain)
+        ctx.ob("R16.3", recv.endswith(".local") and (arg == "kvvs" or is_chain), "cloud/commit/applies-kvvs",
+               f"commit calls {recv}.put_batch({arg})", where=f"{b.file}:{c.line}", sample="self.local.put_batch(kvvs)")
         R.must_pass_guard(ctx, "R16.3", b, R.success_blocks(fv), lambda n: n == f"{VP}KVVStore::put_batch", "local.put_batch",
                           "Ok return of commit", depth=0)
     loops = R.loops_over(fv, lambda s: "commit_log" in s)
-    ctx.ob("R16.3", len(loops) == 1, "cloud/commit/iterates-log", "commit does not iterate the commit log", where=f"{b.file}:{b.line}")
+    # the batch is the whole log: a `for` loop pushing every entry, or an iterator chain that maps and collects without
+    # dropping anything (no filter / filter_map / skip / take / step_by ...)
+    chains = []
+    for bi, c in pb:
+        ch = render(strip_ref(fv.expr(c.args[1])))
+        if "collect" in ch and ("commit_log" in ch or "take(" in ch):
+            chains.append(ch)
+    DROPPING = ("::filter(", "::filter_map(", "::skip(", "::take(", "::step_by(", "::skip_while(", "::take_while(", "::flat_map(",
+                "::dedup", "::retain(")
+    if not loops:
+        dropped = [d for ch in chains for d in DROPPING if d in ch.replace("Option::<T>::take(", "")]
+        ctx.ob("R16.3", bool(chains) and not dropped, "cloud/commit/every-entry-applied",
+               f"commit can skip a commit-log entry (the batch handed to the local store is built with {dropped or 'something other than the whole log'}): "
+               "what prepare reported to the cloud and what the local store holds differ, e.g. a delete (empty value) is never applied locally",
+               where=f"{b.file}:{b.line}", sample="batch <- commit_log.into_iter().map(..).collect()")
+    ctx.ob("R16.3", len(loops) == 1 or bool(chains), "cloud/commit/iterates-log", "commit does not iterate the commit log", where=f"{b.file}:{b.line}")
     pushes = [(bi, c) for bi, c in b.calls() if c.callee and c.callee.name.endswith("::push") and
               render(strip_ref(nv.expr(c.args[0]))) == "kvvs"]
     for h, c, be, ee in loops:
